@@ -162,6 +162,10 @@ func Walk(cfg WalkConfig, handle func(worker int, progs []*ProgInfo)) *WalkStats
 					} else {
 						fc.Unsupported++
 					}
+					// Hand-written families are meant to be accepted: say why not.
+					if cfg.Extra[base] != nil && len(ws.Problems) < 6 {
+						ws.Problems = append(ws.Problems, fmt.Sprintf("%s program not usable: %v\n%s", name, err, level[i].Src))
+					}
 					ws.mu.Unlock()
 					return
 				}
